@@ -167,6 +167,9 @@ class GlomError(Exception):
         if set(self._tb_lines[0]) <= {' ', '^', '~'}:
             self._tb_lines = self._tb_lines[1:]
         self._scope = scope
+        # the message depends on the scope: forget a message rendered for an
+        # earlier (inner) finalization of the exception this one was copied from
+        self._finalized_str = None
 
     def __str__(self):
         if getattr(self, '_finalized_str', None):
